@@ -1,8 +1,12 @@
 (* Arith.v — bsonkit/math.go: Add / Mul / Mod on the four BSON numeric types,
    exactly as the Go code computes them.
 
-   int32 / int64  : Go's wrapping two's-complement arithmetic (wrap32, wrap64);
-                    `%` is the truncated remainder (Z.rem).
+   int32 / int64  : Add / Mul compute the exact integer: an int32 op int32
+                    result that does not fit int32 is promoted to int64
+                    (narrowInt32); an int64 result that does not fit is
+                    rejected (addInt64 / mulInt64 -> Missing, which Increment /
+                    Multiply turn into an error).  Mod still uses Go's wrapping
+                    arithmetic (wrap32, wrap64) and the truncated remainder.
    float64        : Coq.Floats.SpecFloat (pure Gallina) with prec 53, emax 1024;
                     values travel as raw bit patterns.  int -> float conversion
                     is round-to-nearest-even (binary_normalize).  math.Mod is
@@ -14,8 +18,10 @@
    Decimal128     : shopspring/decimal's exact (coefficient, exponent)
                     arithmetic (Add aligns to the smaller exponent, Mul adds
                     exponents, Mod is QuoRem with precision 0), then decToD128 =
-                    primitive.ParseDecimal128FromBigInt whose failure is IGNORED
-                    and yields the zero value Decimal128{} (bits 0,0).
+                    primitive.ParseDecimal128FromBigInt.  Add / Mul use
+                    decResult (failure -> Missing); Mod still uses decToD128
+                    whose failure is IGNORED and yields the zero value
+                    Decimal128{} (bits 0,0).
                     Non-finite operands collapse to the zero Decimal
                     (safeD128ToDec / safeFloatToDec).
    double x decimal: decimal.NewFromFloat (shortest round-trip rendering) is
@@ -201,6 +207,22 @@ Definition dec_to_d128 (d : dec) : res value :=
   | Unmodelled => Unmodelled
   end.
 
+(* decResult: a result that is not representable is Missing *)
+Definition dec_result (d : dec) : res value :=
+  match d128_of_bigint (fst d) (snd d) with
+  | Ok (h, l) => Ok (VDecimal h l)
+  | Err => Ok VMissing
+  | Panic => Panic
+  | OutOfFuel => OutOfFuel
+  | Unmodelled => Unmodelled
+  end.
+
+(* narrowInt32 / addInt64 / mulInt64 on the exact integer *)
+Definition in_int32 (z : Z) : bool := (- two31 <=? z) && (z <? two31).
+Definition in_int64 (z : Z) : bool := (- two63 <=? z) && (z <? two63).
+Definition narrow_int32 (z : Z) : value := if in_int32 z then VInt32 z else VInt64 z.
+Definition checked_int64 (z : Z) : value := if in_int64 z then VInt64 z else VMissing.
+
 (* ------------------------------------------------------------------ *)
 (* Add / Mul / Mod *)
 
@@ -213,9 +235,9 @@ Definition dec_operand (v : value) : option (option dec) :=
   | _ => None
   end.
 
-Definition dec_binop (op : dec -> dec -> dec) (a b : value) : res value :=
+Definition dec_binop (conv : dec -> res value) (op : dec -> dec -> dec) (a b : value) : res value :=
   match dec_operand a, dec_operand b with
-  | Some (Some x), Some (Some y) => dec_to_d128 (op x y)
+  | Some (Some x), Some (Some y) => conv (op x y)
   | Some _, Some _ => Unmodelled
   | _, _ => Ok VMissing
   end.
@@ -223,24 +245,24 @@ Definition dec_binop (op : dec -> dec -> dec) (a b : value) : res value :=
 (* bsonkit.Add *)
 Definition Add (a b : value) : res value :=
   match a, b with
-  | VInt32 x, VInt32 y => Ok (VInt32 (wrap32 (x + y)))
-  | VInt32 x, VInt64 y | VInt64 x, VInt32 y | VInt64 x, VInt64 y => Ok (VInt64 (wrap64 (x + y)))
+  | VInt32 x, VInt32 y => Ok (narrow_int32 (x + y))
+  | VInt32 x, VInt64 y | VInt64 x, VInt32 y | VInt64 x, VInt64 y => Ok (checked_int64 (x + y))
   | VInt32 x, VDouble y | VInt64 x, VDouble y => Ok (VDouble (fadd (float_of_int x) y))
   | VDouble x, VInt32 y | VDouble x, VInt64 y => Ok (VDouble (fadd x (float_of_int y)))
   | VDouble x, VDouble y => Ok (VDouble (fadd x y))
-  | VDecimal _ _, _ | _, VDecimal _ _ => dec_binop dec_add a b
+  | VDecimal _ _, _ | _, VDecimal _ _ => dec_binop dec_result dec_add a b
   | _, _ => Ok VMissing
   end.
 
 (* bsonkit.Mul *)
 Definition Mul (a b : value) : res value :=
   match a, b with
-  | VInt32 x, VInt32 y => Ok (VInt32 (wrap32 (x * y)))
-  | VInt32 x, VInt64 y | VInt64 x, VInt32 y | VInt64 x, VInt64 y => Ok (VInt64 (wrap64 (x * y)))
+  | VInt32 x, VInt32 y => Ok (narrow_int32 (x * y))
+  | VInt32 x, VInt64 y | VInt64 x, VInt32 y | VInt64 x, VInt64 y => Ok (checked_int64 (x * y))
   | VInt32 x, VDouble y | VInt64 x, VDouble y => Ok (VDouble (fmul (float_of_int x) y))
   | VDouble x, VInt32 y | VDouble x, VInt64 y => Ok (VDouble (fmul x (float_of_int y)))
   | VDouble x, VDouble y => Ok (VDouble (fmul x y))
-  | VDecimal _ _, _ | _, VDecimal _ _ => dec_binop dec_mul a b
+  | VDecimal _ _, _ | _, VDecimal _ _ => dec_binop dec_result dec_mul a b
   | _, _ => Ok VMissing
   end.
 
@@ -262,7 +284,7 @@ Definition Mod (a b : value) : res value :=
     | VInt32 x, VDouble y | VInt64 x, VDouble y => Ok (VDouble (fmod (float_of_int x) y))
     | VDouble x, VInt32 y | VDouble x, VInt64 y => Ok (VDouble (fmod x (float_of_int y)))
     | VDouble x, VDouble y => Ok (VDouble (fmod x y))
-    | VDecimal _ _, _ | _, VDecimal _ _ => dec_binop dec_mod a b
+    | VDecimal _ _, _ | _, VDecimal _ _ => dec_binop dec_to_d128 dec_mod a b
     | _, _ => Ok VMissing
     end.
 
